@@ -252,6 +252,32 @@ def templates(tier="quick"):
         T += _mk("dyndep_pool_" + pname, [v], tags=["dyndep", "pool"], depth=min(d, 3), js=(2, 4), files={"dd.in": dd},
                  max_fault_stmts=2, edits_during=False, touch_only=("dd.in",))
 
+    # T22b the statement bound to the dyndep file also waits (order-only) for a stamp that is done before the dyndep file
+    # is: its readiness has been examined once when the new input is spliced in front of the inputs examined then
+    dd = dyndep_text([("out", [], ["x"], False)])
+    v = Variant("v0", [Stmt("dd", ex=["dd.in"], copy=True), Stmt("stamp", ex=["u"]), Stmt("x", ex=["s"]),
+                       Stmt("out", ex=["in"], oo=["stamp", "dd"], dyndep="dd", extra_reads=["x"]), Stmt("top", ex=["out"])])
+    T += _mk("dyndep_after_stamp", [v], tags=["dyndep"], depth=min(d, 3), js=(3,), files={"dd.in": dd},
+             max_fault_stmts=1, edits_during=False, touch_only=("dd.in",))
+    v = Variant("v0", [Stmt("dd", ex=["dd.in"], copy=True), Stmt("stamp", ex=["u"]), Stmt("x", ex=["s"]),
+                       Stmt("out", ex=["in"], im=["stamp"], oo=["dd"], dyndep="dd", extra_reads=["x"]), Stmt("top", ex=["out"])])
+    T += _mk("dyndep_after_implicit_stamp", [v], tags=["dyndep"], depth=min(d, 3), js=(3,), files={"dd.in": dd},
+             max_fault_stmts=1, edits_during=False, touch_only=("dd.in",))
+
+    # T21b output directories that are siblings with a common name prefix (out/generated, out/gen, out/g), longest first
+    v = Variant("v0", [Stmt("o/generated/a", ex=["s"]), Stmt("o/gen/b", ex=["o/generated/a"]), Stmt("o/g/c", ex=["o/gen/b"]),
+                       Stmt("o/generated2/d", ex=["o/g/c"], depfile=True, hidden=["h"])])
+    T += _mk("sibling_dirs_common_prefix", [v], tags=["mkdirs"], depth=min(d, 2), js=(1, 2), max_fault_stmts=1, edits_during=False)
+
+    # T33b a statement with deps whose command reports no dependency at all (an empty list is a record like any other),
+    # in a deps log with a long history: the recompaction must carry the empty record over
+    v = Variant("v0", [Stmt("obj", ex=["src"], deps="gcc"), Stmt("obj2", ex=["src2"], hidden=["h"], deps="gcc"), Stmt("exe", ex=["obj", "obj2"])])
+    eops = standard_ops([v], {}, js=(1, 2), ks=(1,), edits_during=False, max_fault_stmts=1, with_rm=False)
+    eops.append({"op": "dupdeps", "path": "obj2", "content": "1100", "label": "1100 more deps records of obj2 (long history)"})
+    eb = next(i for i, o in enumerate(eops) if o["op"] == "ninja")
+    T.append(scenario("deps_empty_list_long_history/built", "template", [v], ops=eops, init=[eb], depth=d,
+                      tags=["deps-gcc", "recompaction", "built"]))
+
     # T23 a depfile consumer that depends only order-only on a restat producer, and whose depfile gets lost
     # (deleted by hand, or by a failing compiler): missing dependency information must force a rebuild even
     # when the restat producer re-runs without rewriting its output in the same invocation
